@@ -162,9 +162,9 @@ def audit(prop: str, extra_allowed=lambda thm, ax: False, modules=None):
         rc, out, err = run_cmd(["lake", "env", "lean", str(audit_file.relative_to(LEAN))], cwd=LEAN, timeout=1800)
     text = out + err
     thms = {}
-    for m in re.finditer(r"'([^']+)' depends on axioms: \[([^\]]*)\]", text, flags=re.S):
+    for m in re.finditer(r"'(\S+)' depends on axioms: \[([^\]]*)\]", text, flags=re.S):
         thms[m.group(1)] = [a.strip() for a in m.group(2).replace("\n", " ").split(",") if a.strip()]
-    for m in re.finditer(r"'([^']+)' does not depend on any axioms", text):
+    for m in re.finditer(r"'(\S+)' does not depend on any axioms", text):
         thms[m.group(1)] = []
     if rc != 0:
         problems.append("audit file failed to elaborate: " + text[-1500:])
@@ -371,6 +371,17 @@ def repo_py(code: str, *, timeout=1800, env=None, input=None):
     """Run Python code in a fresh /venv interpreter (real pybes3 from the working tree)."""
     rc, out, err = run_cmd([PY, "-c", code], timeout=timeout, env=env, input=input, cwd=str(VERIF))
     return rc, out, err
+
+
+def regen_rootcpp(chk):
+    """regenerate Gen/RootCpp.lean from the working tree's root_io.hh (Props/RootCppTie.lean proves it equal to the reader models)"""
+    from translate import gen
+    g = gen.gen_rootcpp()
+    if not g["ok"]:
+        chk.obligation_broken("translator", "translate the readers of root_io.hh into Gen/RootCpp.lean", g["error"])
+        return False
+    chk.coverage["rootcpp_translation"] = {k: (v if len(str(v)) < 200 else str(v)[:200]) for k, v in g["info"].items()} if isinstance(g["info"], dict) else str(g["info"])[:300]
+    return True
 
 
 def regen_rootpy(chk):
